@@ -1350,6 +1350,11 @@ class C16(ProverCheck):
         val = self.gen_value(rng, sc, inputs, expect, want_oor if want_oor else None)
         cfg["share_packers"] = rng.random() < 0.5
         plan = {"cfg": cfg, "inputs": inputs, "body": [{"s": "pack", "schema": sc, "value": val}]}
+        r2 = _random.Random("refused-first/%s" % P.plan_digest(plan))
+        if not want_oor[1:] and sc[0] in ("list", "rep") and r2.random() < 0.45:
+            # history: the packer object has been used before, on a record it (usually) refused at a later element
+            first_oor = ["on"]
+            plan["body"][0]["first"] = self.gen_value(r2, sc, inputs, [], first_oor)
         return {"mode": "pack", "plan": plan, "expect": expect, "oor": bool(want_oor[1:]),
                 "seed": rng.randrange(1 << 30)}
 
@@ -3282,6 +3287,24 @@ class C09(TraceCheck):
 
     def gen(self, rng, i, tier):
         cfg = self.cfg(rng)
+        if i % 20 == 19:
+            # history: one loop (one source line, one BranchingValues object) run again and again by the program; some
+            # of the runs are abandoned by an exception that the program catches (the loop is closed in a finally)
+            inputs = [{"kind": "priv", "t": "I", "v": rng.choice([0, 1, 2, 3, 4])} for _ in range(2)]
+            att = []
+            for k in range(rng.randrange(2, 6)):
+                a = {"start": rng.choice([0, 7, 10, 50, 100]), "n": {"ref": rng.randrange(2), "t": "I"},
+                     "step": rng.choice([1, 2, 5])}
+                if k > 0 or rng.random() < 0.5:
+                    u = rng.random()
+                    if u < 0.3:
+                        a["poison"] = "float"
+                    elif u < 0.45:
+                        a["poison"], a["bug"] = "bug", rng.randrange(1, 4)
+                att.append(a)
+            att.append({"start": rng.choice([3, 20, 100]), "n": {"ref": rng.randrange(2), "t": "I"}, "step": rng.choice([1, 5])})
+            plan = {"cfg": cfg, "inputs": inputs, "body": [{"s": "retry_while", "attempts": att, "maxit": rng.choice([2, 3, 4])}]}
+            return {"plan": plan, "alt_inputs": [rng.choice([0, 1, 2, 3, 4]) for _ in inputs]}
         g = BlockGen(rng, cfg)
         plan = g.plan()
         alt = [rng.choice([0, 1, 2, 3, 4, 5, 6, 7]) for _ in plan["inputs"]]
@@ -3819,7 +3842,15 @@ class C17(TraceCheck):
             body.append(st)
             if rng.random() < 0.3:
                 body.append({"s": "let", "e": {"op": "*", "a": {"ref": 0, "t": "I"}, "b": {"ref": 1, "t": "I"}, "t": "I"}})
-        return {"plan": {"cfg": cfg, "inputs": inputs, "body": body}}
+        plan = {"cfg": cfg, "inputs": inputs, "body": body}
+        r2 = _random.Random("snark-raises/%s" % P.plan_digest(plan))
+        calls = [st2 for st in body for st2 in ([st] + st.get("body", [])) if st2["s"] == "snark_call"
+                 and not st2.get("kwargs")]
+        if len(calls) >= 2 and r2.random() < 0.2:
+            # history: one of the earlier calls is abandoned by an exception of the wrapped function itself (caught by
+            # the program); the calls after it are ordinary
+            calls[r2.randrange(0, len(calls) - 1)]["raises"] = True
+        return {"plan": plan}
 
     def run(self, case):
         plan = case["plan"]
@@ -3879,6 +3910,11 @@ class C17(TraceCheck):
                     if left:
                         kinds = [e[0] for e in rec.events[c["ev0"]:c["ev0"] + left]]
                         add("refused_call_left_trace", site0, "the refused call allocated %r before raising" % (kinds[:6],))
+                continue
+            if st.get("raises"):
+                probes["call_abandoned_by_function"] = probes.get("call_abandoned_by_function", 0) + 1
+                if c is not None and "ret" in c:
+                    add("exception_swallowed", site0, "the wrapped function raised KeyError but the call returned %r" % (c["ret"],))
                 continue
             if c is None or "ret" not in c:
                 add("call_failed", site0, "wrapped call raised: %r" % (tr.caught[:2],))
